@@ -64,7 +64,7 @@ func jsonTypeToXValue(data []byte, valType jsonparser.ValueType) XValue {
 }
 
 func jsonToObject(data []byte) *XObject {
-	return NewXLazyObject(func() map[string]XValue {
+	obj := NewXLazyObject(func() map[string]XValue {
 		properties := make(map[string]XValue)
 
 		jsonparser.ObjectEach(data, func(key []byte, value []byte, dataType jsonparser.ValueType, offset int) error {
@@ -73,6 +73,12 @@ func jsonToObject(data []byte) *XObject {
 		})
 		return properties
 	})
+
+	// a __default__ key in the JSON becomes the default of the object, so it has to be included when the object is
+	// marshaled back to JSON, otherwise it's lost (e.g. from trigger params when a session is persisted)
+	obj.marshalDefault = true
+
+	return obj
 }
 
 func jsonToArray(data []byte) *XArray {
